@@ -93,7 +93,8 @@ class Tree:
 
 
 EDITS = ["noop", "add_file", "add_dir", "remove_file", "remove_dir", "rename_file", "retype_file_to_dir", "retype_dir_to_file", "content_size", "content_same_size",
-         "mtime_only", "replace_by_rename", "add_excluded", "content_excluded", "retarget_link", "add_file_deep", "add_keep_dir_mtime", "link_to_prefix_sibling"]
+         "mtime_only", "replace_by_rename", "add_excluded", "content_excluded", "retarget_link", "add_file_deep", "add_keep_dir_mtime", "link_to_prefix_sibling",
+         "add_dangling_link", "edit_beside_dangling_link", "edit_beside_dangling_link"]
 
 
 def apply_edit(t, kind, patterns):
@@ -145,6 +146,23 @@ def apply_edit(t, kind, patterns):
         else:
             t.retouch_dirs(rel)
         return (rel, "structural")
+    if kind == "add_dangling_link":
+        d = rnd.choice(all_dirs); name = "aaa_dangling%d" % t.n; t.n += 1     # sorts early: entries listed after it must not get lost
+        rel = (d + "/" + name) if d else name
+        if excluded(rel, patterns):
+            return None
+        os.symlink("no-such-target-%d" % t.n, sb.p("tree/" + rel)); t.links.add(rel); t.dangling = getattr(t, "dangling", set()) | {rel}; t.retouch_dirs(rel)
+        return (rel, "structural")
+    if kind == "edit_beside_dangling_link" and getattr(t, "dangling", None):
+        live = sorted(l for l in t.dangling if os.path.lexists(sb.p("tree/" + l)))
+        if not live:
+            return None
+        d = os.path.dirname(rnd.choice(live))
+        beside = sorted(f for f in vis_files if os.path.dirname(f) == d)
+        if not beside:
+            return None
+        rel = rnd.choice(beside); sb.write("tree/" + rel, (sb.read("tree/" + rel) or b"") + b"beside\n")
+        return (rel, "content")
     if kind == "add_dir":
         d = rnd.choice(all_dirs); name = t.newname().replace(".", "_")
         rel = (d + "/" + name) if d else name
@@ -340,7 +358,7 @@ def run(tier, replay):
         chk.cov["cases"] = len(results)
         chk.cov["rule"] = ("case = (spelling of the directory input: trailing-slash name, type: directory, is-directory, is-directory-structure, type: directory-structure on names with and "
                            "without slash) x (exclusion patterns or none) x random tree (depth<=3, files, directories, symlink out of the tree, symlink loop to the root) x sequence of edits "
-                           "{no-op, add/remove/rename file or dir, add with the directory's own mtime restored, retype, content with/without size change, mtime only, replace by rename, edits of excluded names, link retarget}, a new "
+                           "{no-op, add/remove/rename file or dir, add with the directory's own mtime restored, dangling links and edits beside them, links between prefix-named siblings, retype, content with/without size change, mtime only, replace by rename, edits of excluded names, link retarget}, a new "
                            "process per build; three-valued expectation from the property text (pattern semantics = libc fnmatch via ctypes); observed = whether the consuming command appears "
                            "in its own run log; distinct = (node kind, patterns?, edit kind, depth, spelling) classes judged")
         chk.assumptions = ["directory listings are only changed by the harness between builds", "replace-by-rename under a structure node, and additions/removals of excluded names under a tree node (the parent directory's mtime is part of its signature), are not judged"]
